@@ -144,9 +144,9 @@ def run(ctx):
     q = ctx.quick
     nw = 4
     # ------------------------------------------------------------------ dynar
-    r, ex = L.generate(ctx, "Dynar.tla", "dyn_bfs", {"MaxSteps": 3 if q else 4, "Vals": [1, 2], "MaxLen": 6, "Wide": True},
+    r, ex = L.generate(ctx, "Dynar.tla", "dyn_bfs", {"MaxSteps": 3, "Vals": [1, 2] if q else [1, 2, 3], "MaxLen": 6, "Wide": True},
                        "bfs", timeout=1500)
-    ctx.cov["dynar_exhaustive"] = {"steps": 3 if q else 4, "sequences": len(ex), "states": r.distinct}
+    ctx.cov["dynar_exhaustive"] = {"steps": 3, "values": 2 if q else 3, "sequences": len(ex), "states": r.distinct}
     sim = []
     for k, (steps, vals, maxlen, num) in enumerate([(200, range(10), 60, 2 if q else 40), (60, range(4), 12, 4 if q else 40)]):
         r, s = L.generate(ctx, "Dynar.tla", "dyn_sim%d" % k, {"MaxSteps": steps, "Vals": list(vals), "MaxLen": maxlen, "Wide": False},
@@ -162,9 +162,14 @@ def run(ctx):
     nbad = _compare(ctx, "dyn", "D", dyn, params, _dyn_mismatch)
 
     # ------------------------------------------------------------------ dict
-    r, ex = L.generate(ctx, "Dict.tla", "dict_bfs", {"MaxSteps": 3 if q else 4, "Keys": [0, 1, 2], "Vals": [1, 2], "BulkMax": 0,
+    r, ex = L.generate(ctx, "Dict.tla", "dict_bfs", {"MaxSteps": 3, "Keys": [0, 1, 2], "Vals": [1, 2], "BulkMax": 0,
                                                     "Wide": True}, "bfs", timeout=1500)
-    ctx.cov["dict_exhaustive"] = {"steps": 3 if q else 4, "sequences": len(ex), "states": r.distinct}
+    ctx.cov["dict_exhaustive"] = {"steps": 3, "keys": 3, "sequences": len(ex), "states": r.distinct}
+    if not q:        # one more step on two keys
+        r, ex4 = L.generate(ctx, "Dict.tla", "dict_bfs4", {"MaxSteps": 4, "Keys": [0, 1], "Vals": [1, 2], "BulkMax": 0,
+                                                           "Wide": True}, "bfs", timeout=1500)
+        ctx.cov["dict_exhaustive_4_steps_2_keys"] = len(ex4)
+        ex = ex + ex4
     r, s1 = L.generate(ctx, "Dict.tla", "dict_sim", {"MaxSteps": 200, "Keys": list(range(16)), "Vals": [1, 2, 3, 4, 5], "BulkMax": 0,
                                                     "Wide": False}, "sim", num=1 if q else 30, depth=205, seed=ctx.seed * 7 + 3,
                       workers=nw, timeout=1500)
@@ -186,7 +191,7 @@ def run(ctx):
                        "sequence of the small scope (%d steps; 2-3 values; 3 keys), -simulate (seed = f(VERIF_SEED)) draws "
                        "sequences of 200/60/14 steps; each sequence is replayed on the real container and every step is "
                        "compared (return value, traversal, full content); non-trivial = at least two mutating operations; "
-                       "distinct by hash of the operation list" % (3 if q else 4))
+                       "distinct by hash of the operation list" % 3)
     ctx.assumptions += ["dynar elements are scalars of 4 and 24 bytes (memcpy/memmove paths); containers of pointers with "
                         "free functions are not exercised",
                         "operations outside their documented preconditions (xbt_assert) are not generated",
